@@ -83,6 +83,10 @@ T['v_exec_cmpx'] = "s_mov_b64 s[24:25], exec\n v_cmpx_lt_u32 vcc, v20, v21\n v_m
 T['lds_rw32'] = "ds_write_b32 v3, v20\n s_waitcnt lgkmcnt(0)\n ds_read_b32 v22, v3\n s_waitcnt lgkmcnt(0)"
 T['lds_rw64'] = "v_lshlrev_b32 v17, 1, v3\n ds_write_b64 v17, v[20:21]\n s_waitcnt lgkmcnt(0)\n ds_read_b64 v[22:23], v17\n s_waitcnt lgkmcnt(0)"
 T['lds_read2'] = "v_lshlrev_b32 v17, 1, v3\n ds_write2_b32 v17, v20, v21 offset1:1\n s_waitcnt lgkmcnt(0)\n ds_read2_b32 v[22:23], v17 offset1:1\n s_waitcnt lgkmcnt(0)"
+# --- barriers (work-group wide): exchange through LDS with the wavefront 64 lanes further on; the trailing barrier keeps
+# later LDS templates of faster wavefronts from overwriting a slot a slower neighbour has not read yet
+T['barrier_lds_exchange'] = "ds_write_b32 v3, v20\n s_waitcnt lgkmcnt(0)\n s_barrier\n v_add_u32 v17, vcc, 64, v0\n v_and_b32 v17, s6, v17\n v_lshlrev_b32 v17, 2, v17\n ds_read_b32 v22, v17\n s_waitcnt lgkmcnt(0)\n s_barrier"
+T['barrier_only'] = "s_barrier\n v_add_u32 v23, vcc, 1, v23"
 T['lds_offset'] = "ds_write_b32 v3, v21 offset:16\n s_waitcnt lgkmcnt(0)\n ds_read_b32 v23, v3 offset:16\n s_waitcnt lgkmcnt(0)"
 # --- SMEM
 T['smem_x1'] = "s_load_dword s22, s[8:9], 0x10\n s_waitcnt lgkmcnt(0)\n s_add_u32 s20, s20, s22"
